@@ -68,6 +68,36 @@ class Watchdog:
         return False
 
 
+class StepTimeout(Exception):
+    pass
+
+
+class SubWatchdog:
+    """a short deadline for one operation inside a case (the case's own watchdog is suspended and resumed with the
+    time it had left); its firing means 'the operation did not come back', which the caller reports"""
+
+    def __init__(self, seconds: float):
+        self.seconds = seconds
+
+    def _fire(self, signum, frame):
+        raise StepTimeout()
+
+    def __enter__(self):
+        if hasattr(signal, "setitimer"):
+            self._left = signal.getitimer(signal.ITIMER_REAL)[0]
+            self._old = signal.signal(signal.SIGALRM, self._fire)
+            signal.setitimer(signal.ITIMER_REAL, self.seconds)
+        return self
+
+    def __exit__(self, *exc):
+        if hasattr(signal, "setitimer"):
+            signal.setitimer(signal.ITIMER_REAL, 0)
+            signal.signal(signal.SIGALRM, self._old)
+            if self._left:
+                signal.setitimer(signal.ITIMER_REAL, max(0.05, self._left))
+        return False
+
+
 def load_known():
     """Parse known-findings.txt -> (known: {prop: {key: text}}, fixed: {prop: {key: (commit, text)}})."""
     known, fixed = {}, {}
